@@ -4,11 +4,16 @@
 //! crept into it.
 
 use std::panic::{RefUnwindSafe, UnwindSafe};
-use tz::datetime::{DateTime, FoundDateTimeKind, FoundDateTimeList, FoundDateTimeListRefMut, UtcDateTime};
+#[cfg(feature = "alloc")]
+use tz::datetime::FoundDateTimeList;
+use tz::datetime::{DateTime, FoundDateTimeKind, FoundDateTimeListRefMut, UtcDateTime};
 use tz::error::datetime::DateTimeError;
+#[cfg(feature = "alloc")]
 use tz::error::parse::{ParseDataError, TzFileError, TzStringError};
 use tz::error::timezone::{LocalTimeTypeError, TimeZoneError, TransitionRuleError};
-use tz::timezone::{AlternateTime, Julian0WithLeap, Julian1WithoutLeap, LeapSecond, LocalTimeType, MonthWeekDay, RuleDay, TimeZone, TimeZoneRef, TimeZoneSettings, Transition, TransitionRule};
+use tz::timezone::{AlternateTime, Julian0WithLeap, Julian1WithoutLeap, LeapSecond, LocalTimeType, MonthWeekDay, RuleDay, TimeZoneRef, Transition, TransitionRule};
+#[cfg(feature = "alloc")]
+use tz::timezone::{TimeZone, TimeZoneSettings};
 use tz::{Error, TzError};
 
 fn shared<T: Send + Sync + Unpin + UnwindSafe + RefUnwindSafe>() {}
@@ -16,10 +21,13 @@ fn shared_static<T: Send + Sync + Unpin + UnwindSafe + RefUnwindSafe + 'static>(
 fn send_sync<T: Send + Sync + Unpin>() {}
 
 pub fn gate() {
+    #[cfg(feature = "alloc")]
     shared_static::<TimeZone>();
     shared_static::<TimeZoneRef<'static>>();
     shared::<TimeZoneRef<'_>>();
+    #[cfg(feature = "alloc")]
     shared_static::<TimeZoneSettings<'static>>();
+    #[cfg(feature = "alloc")]
     shared::<TimeZoneSettings<'_>>();
     shared_static::<LocalTimeType>();
     shared_static::<Transition>();
@@ -33,6 +41,7 @@ pub fn gate() {
     shared_static::<DateTime>();
     shared_static::<UtcDateTime>();
     shared_static::<FoundDateTimeKind>();
+    #[cfg(feature = "alloc")]
     shared_static::<FoundDateTimeList>();
     // holds `&mut [..]`: Send + Sync, but (like every &mut) not UnwindSafe
     send_sync::<FoundDateTimeListRefMut<'_>>();
@@ -40,8 +49,11 @@ pub fn gate() {
     // Error::Io holds a Box<dyn Error + Send + Sync>: Send + Sync, unwind safety is not promised by the box
     send_sync::<Error>();
     shared_static::<DateTimeError>();
+    #[cfg(feature = "alloc")]
     shared_static::<ParseDataError>();
+    #[cfg(feature = "alloc")]
     shared_static::<TzFileError>();
+    #[cfg(feature = "alloc")]
     shared_static::<TzStringError>();
     shared_static::<LocalTimeTypeError>();
     shared_static::<TimeZoneError>();
